@@ -3,5 +3,5 @@ import JominiModel.Props.C04
 #print axioms Jomini.Props.C04.C04_rgb_dispatch
 #print axioms Jomini.Props.C04.C04_rgb_components
 #print axioms Jomini.Props.C04.C04_root_only_maps
-#print axioms Jomini.Props.C04.C04_ondemand_eq_stream_partial
+#print axioms Jomini.Props.C04.C04_ondemand_eq_stream
 #print axioms Jomini.Props.C04.C04_readers_agree
